@@ -312,6 +312,12 @@ class RestAPI(object):
                     "Message body {} does not contain valid JSON".format(data)
                 )
 
+            if not isinstance(params, dict):
+                # The parameters must be a JSON object. Anything else is treated as
+                # no parameters, so each action reports what is missing or invalid
+                # rather than failing with an internal error.
+                params = {}
+
             # ------------------------------------------------------------------
 
             """
